@@ -174,8 +174,7 @@ def run_shard(ctx):
             ctx.count("mode:" + case["mode"])
             try:
                 run_case(case, ctx)
-                if ctx.evaluations % 997 == 0:
-                    ctx.sample(case)
+                ctx.maybe_sample(case, 997)
             except Abandon:
                 pass
         return t
